@@ -289,6 +289,11 @@ class TriangleBoundary(BoundaryDomain):
         self._add_local_normal_vector(normals, bary_x, normal_dir_3, 0.0)
         self._add_local_normal_vector(normals, (bary_x + bary_y), normal_dir_2, 1.0)
         self._add_local_normal_vector(normals, bary_y, normal_dir_1, 0.0)
+        # the rotated edge directions point outwards only if the corners are ordered
+        # counter clockwise; the sign of the determinant corrects the other case
+        normals *= torch.sign(
+            dir_3[:, :1] * dir_1[:, 1:] - dir_3[:, 1:] * dir_1[:, :1]
+        )
         # scale normal vectors if there where in a corner:
         return torch.divide(normals, torch.linalg.norm(normals, dim=1).reshape(-1, 1))
 
